@@ -85,8 +85,16 @@ def main():
         V.violation("build:" + prop, "build failed: " + str(e)[:2000], dict(build_log=str(e)[-6000:]), found_input=False)
         return V.finish()
     except Exception:
-        traceback.print_exc()
-        return 2
+        # the check could not be completed (e.g. an evaluator answered something no case of the checker expects):
+        # the property is not shown to hold on this tree
+        tb = traceback.format_exc()
+        sys.stderr.write(tb)
+        V = C.Verdict(prop, a.tier, seed)
+        V.coverage = dict(obligations=1, discharged=0, checker_cmd="tools/check.py", trusted_base=C.TRUSTED_BASE,
+                          explanation="check aborted")
+        V.violation("aborted:" + prop, "the check of %s could not be completed: %s" % (prop, tb.strip().split("\n")[-1][:300]),
+                    dict(traceback=tb[-4000:]), found_input=False)
+        return V.finish()
 
 
 if __name__ == "__main__":
